@@ -129,6 +129,7 @@ func famSlots() []slot {
 			body(J{"type": "string", "maxLength": 3}, true),
 			body(J{"type": "object", "properties": J{"o": J{"type": "object", "properties": J{"i": J{"type": "number", "minimum": 0.5}}}}}, true),
 			body(J{"type": "object", "additionalProperties": J{"$ref": "#/definitions/Pet"}}, false),
+			body(J{"type": "object", "properties": J{"own": J{"type": "string"}}, "allOf": A{J{"$ref": "#/definitions/Pet"}}}, true),
 			body(J{"type": "object", "properties": J{"l": J{"type": "array", "items": J{"type": "string", "enum": A{"u", "v"}}, "default": A{"u"}}}}, true),
 		}},
 		{"shared", []func(J){
@@ -155,6 +156,7 @@ func famSlots() []slot {
 			resp("200", J{"description": "ok", "schema": J{"allOf": A{J{"$ref": "#/definitions/Pet"}, J{"type": "object", "properties": J{"z": J{"type": "boolean"}}}}}}),
 			resp("200", J{"description": "ok", "schema": J{"type": "object", "additionalProperties": J{"type": "string"}}}),
 			resp("200", J{"description": "ok", "schema": J{"type": "string", "enum": A{"on", "off"}}}),
+			resp("200", J{"description": "ok", "schema": J{"type": "object", "required": A{"own"}, "properties": J{"own": J{"type": "integer"}}, "allOf": A{J{"$ref": "#/definitions/Pet"}, J{"type": "object", "required": A{"w"}, "properties": J{"w": J{"type": "string"}}}}}}),
 			resp("201", J{"description": "made", "schema": J{"type": "array", "items": J{"type": "integer"}}, "x-r": 1}),
 			resp("200", J{"description": "ok", "schema": J{"type": "object", "properties": J{"n": J{"type": "object", "properties": J{"m": J{"type": "string", "maxLength": 4}}}}}}),
 		}},
@@ -168,6 +170,7 @@ func famSlots() []slot {
 			defs(J{"Tree": J{"type": "object", "properties": J{"kids": J{"type": "array", "items": J{"$ref": "#/definitions/Tree"}}}}}, "Tree"),
 			defs(J{"Any": J{}}, "Any"),
 			defs(J{"Str": J{"type": "string", "enum": A{"p", "q"}}, "Holder": J{"type": "object", "properties": J{"s": J{"$ref": "#/definitions/Str"}}}}, "Holder"),
+			defs(J{"Mixed": J{"type": "object", "properties": J{"own": J{"type": "string"}}, "allOf": A{J{"$ref": "#/definitions/Pet"}}}, "UsesMixed": J{"type": "object", "properties": J{"m": J{"$ref": "#/definitions/Mixed"}, "ms": J{"type": "array", "items": J{"$ref": "#/definitions/Mixed"}}}}}, "UsesMixed"),
 			defs(J{"Arr": J{"type": "array", "items": J{"type": "string"}}, "M": J{"type": "object", "additionalProperties": J{"$ref": "#/definitions/Arr"}}}, "M"),
 		}},
 		{"meta", []func(J){
